@@ -10,13 +10,18 @@ import numpy as np
 from harness.common import *
 import vlib
 
-LEVEL_TEXT = ('partial. Lean 4 theorems: rescaling by s divides the pixel scale by exactly s; resampling to a pixel scale yields it; arrays '
-              'get ceil(n*s) samples; the physical extent is preserved to within one new sample (0 <= (px/s)*ceil(n s) - px*n < px/s); '
-              'at s = 1 every output sample is interpolated at its own integer coordinate, so the operation is the identity for any '
-              'interpolator reproducing samples at integer coordinates; the mask stays binary and keeps its segments; the original is '
-              'untouched (regenerated effect table). Power/image preservation "to interpolation accuracy" is measured, not proved.')
-LEVEL_NOTE = ('partial: the property is carried by bookkeeping theorems; cubic-spline interpolation accuracy (scipy map_coordinates) is an '
-              'external analytic fact — unproven clause, measured on smooth apertures.')
+LEVEL_TEXT = ('partial. Lean 4 theorems (exact arithmetic): rescaling by s divides each axis of the pixel scale by exactly s (absent stays absent); '
+              'resample refuses exactly planes without / with non-uniform pixel scale, otherwise yields the requested pixel scale, and is '
+              'invariant under the unit of length; arrays get ceil(n*s) samples; the physical extent is preserved to within one new sample; the '
+              'interpolation grid is uniform with spacing 1/s and maps centre to centre; at s = 1 every output sample is interpolated at its own '
+              'integer coordinate, so the operation is the identity for any interpolator reproducing samples there; a constant aperture keeps its '
+              'power up to the one-sample rim (n0 n1 a^2 <= P\' <= (n0+1/s)(n1+1/s) a^2) because the amplitude is divided by s; the mask values stay 0/1 '
+              'and the segment count is kept; the original is untouched (regenerated effect table). Compared with the code on every case: shapes, '
+              'per-axis pixel scale, the amplitude factor 1/s on top of util.rescale, the whole interpolation grid, refusals. Power/image/amplitude/OPD '
+              'preservation "to interpolation accuracy" is measured, not proved.')
+LEVEL_NOTE = ('partial: bookkeeping theorems over a hand model (pinned, not translated); cubic-spline interpolation accuracy (scipy map_coordinates) is an '
+              'external analytic fact — unproven clause, measured on smooth apertures; the sample count follows float64 semantics of ceil(n*s) at the '
+              'float seam (ASSUMPTIONS); segment disjointness/coverage is oracle-only.')
 TECHNIQUE = 'Lean 4 proof (ordered-field algebra with Int.ceil) over a hand model + differential correspondence at exact rationals; measured interpolation clause'
 GEN = ['Effects']
 OPS = ['C17']
@@ -30,19 +35,26 @@ RULE = ('cases: planes with smooth (super-Gaussian edge) amplitude and low-order
         'segments, scale, kind, pixel-scale mode, scalar flags); non-trivial = scale != 1 or segmented or non-square or refusal')
 TRUSTED = ['scipy.ndimage.map_coordinates reproduces the samples at integer coordinates (hypothesis of rescale_one_is_identity; observed to 1e-12) '
            'and its order-1 interpolant reproduces linear ramps (used to read the grid back)',
-           'np.ceil / float division agree with exact rational arithmetic on the dyadic scale factors used']
+           'float64 multiplication n*s and division px/s as performed by NumPy (the model receives the float product, see ASSUMPTIONS: float seam)']
 UNPROVEN = ['transmitted power sum|amplitude|^2 is preserved to interpolation accuracy: measured (relative tolerance 2e-3 down-sampling, '
             '1e-3 otherwise, on apertures smooth on the grid; the unchanged tree stays below 2e-4)',
             'rescaled amplitude (times s) and OPD equal the generating aperture/surface functions on the new grid (registration about the '
             'geometric centre): measured on every case (tolerances 1e-2 / 5e-2 of the OPD scale; unchanged tree below 1.4e-3 / 8e-3)',
             'the propagated image at a fixed output sampling is preserved to interpolation accuracy: measured (peak-normalised tolerance 3e-3; unchanged tree below 3e-4)',
             'which arrays Plane.rescale interpolates and that it leaves the original untouched under later in-place work on the result: '
-            'modelled (Model/Rescale.lean planePixelscale/amplitudeFactor/interpolated) and compared, original-untouched via the regenerated '
+            'modelled (Model/Rescale.lean planePixelscale/amplitudeFactor/interpolated) and compared (amplitude factor observed against util.rescale of the original), original-untouched via the regenerated '
             'effect table (copy.copy counts as sharing) plus snapshots; not a theorem about NumPy',
             'segment masks stay disjoint, non-empty and cover the aperture support: oracle only (mask_binary_segments_kept only states 0/1 values and the count)']
-ASSUMPTIONS = ['apertures and OPDs are smooth on the sampling grid (property quantifier); scale factors are dyadic so float and exact ceil agree']
+ASSUMPTIONS = ['apertures and OPDs are smooth on the sampling grid (property quantifier)',
+               'FLOAT SEAM of the documented formula: the sample count is ceil(fl(n*s)) with the product formed in float64. For non-dyadic s it '
+               'differs by one from the exact ceil(n*s) (s the float) exactly when n*s is within an ulp of an integer — e.g. 30 samples x 1.1 give 33 '
+               '(exact 34, decimal intent 33), 50 x 1.1 give 56 (exact 56, decimal intent 55), resample of 27 samples 2e-4 -> 3e-4 gives 19 (s = '
+               '0.6666666666666667 > 2/3). The extent clause then holds up to float rounding (new - old extent within [-1e-12 rel, one new sample]); '
+               'judged float semantics of the formula, not a violation: model and oracle take ceil of the float64 product (driver receives fl(n*s)); '
+               'cases where it differs from the exact ceiling are tagged float-seam in the input distribution; theorems are about exact arithmetic']
 
 SCALES = [0.5, 0.75, 1.0, 1.25, 1.5, 2.0, 2.5, 3.0, 4.0]
+DECIMAL_SCALES = [1.1, 2.2, 0.7, 3.7, 0.9, 1.3, 2.6, 0.55]      # non-dyadic: n*s is formed in float64 and can land on either side of an integer
 
 def gen_extreme(rng):
     """seams: nano-scale and huge pixel scales (absolute tolerances bite there), target pixel scales a hair away from the current one,
@@ -74,6 +86,7 @@ def generate(rng, tier):
              'amp_scalar': False, 'opd_scalar': False, 'pre_tilt': bool(rng.integers(0, 2)),
              'int_mask': bool(rng.integers(0, 4) == 0), 'twice': bool(rng.integers(0, 5) == 0), 'propagate': bool(k % 4 == 0)}
         if k % 7 == 3: c['scale'] = 1.0
+        elif k % 6 == 1: c['scale'] = DECIMAL_SCALES[int(rng.integers(0, len(DECIMAL_SCALES)))]; c['twice'] = False
         t = k % 10
         if t == 4: c['kind'] = 'resample'; c['new_px'] = c['px'] / c['scale']
         elif t == 5: c['pxmode'] = 'peraxis'; c['propagate'] = False
@@ -92,6 +105,9 @@ def nontrivial(c): return c['scale'] != 1.0 or c['segments'] > 1 or c['shape'][0
 def tags(c):
     t = [c['kind'], f"scale:{c['scale']}", f"segments:{min(c['segments'], 55)}{'+' if c['segments'] >= 55 else ''}", 'px:' + c['pxmode']]
     if c.get('extreme'): t.append('extreme:' + c['extreme'])
+    if c['scale'] in DECIMAL_SCALES: t.append('non-dyadic-scale')
+    sf_ = c['scale']; 
+    if any(math.ceil(n * sf_) != math.ceil(n * Fr(sf_)) for n in c['shape']): t.append('float-seam: ceil(fl(n*s)) != ceil(n*s)')
     if c['shape'][0] != c['shape'][1]: t.append('non-square')
     if c['shape'][0] % 2: t.append('odd-rows')
     if c['int_mask']: t.append('int-mask')
@@ -168,8 +184,12 @@ def impl(c):
                     'seg_nonempty': bool(all(np.any(x) for x in (m if m.ndim == 3 else [m])))})
         if not c['amp_scalar']:
             res['power0'] = float(np.sum(np.abs(P.amplitude) ** 2)); res['power1'] = float(np.sum(np.abs(A) ** 2))
+            # the factor Plane.rescale applies on top of util.rescale's interpolation (model: amplitudeFactor = 1/s)
+            U = lentil.rescale(np.asarray(P.amplitude), scale=_eff_scale(c), shape=None, mask=None, order=3, mode='nearest', unitary=False)
+            nzu = np.abs(U) > 1e-3
+            res['amp_factor'] = [float(np.min(A[nzu] / U[nzu])), float(np.max(A[nzu] / U[nzu]))] if U.shape == A.shape and nzu.any() else None
             # direct comparison with the generating functions on the new grid (physical registration: the geometric centre is kept)
-            S0, S1 = A.shape; n0, n1 = c['shape']; s = c['scale']
+            S0, S1 = A.shape; n0, n1 = c['shape']; s = _eff_scale(c)
             yi = (np.arange(S0) - S0 / 2) / s + n0 / 2; xi = (np.arange(S1) - S1 / 2) / s + n1 / 2
             YI, XI = np.meshgrid(yi, xi, indexing='ij')
             ra, ro = _analytic(c, YI, XI)
@@ -184,8 +204,8 @@ def impl(c):
         # the interpolation grid, read back from the code: rescale linear ramps with the first-order interpolant
         n0, n1 = c['shape']
         ry = np.repeat(np.arange(n0, dtype=float)[:, None], n1, axis=1); rx = np.repeat(np.arange(n1, dtype=float)[None, :], n0, axis=0)
-        gy = lentil.rescale(ry, c['scale'], mask=np.ones_like(ry), order=1, mode='nearest', unitary=False)
-        gx = lentil.rescale(rx, c['scale'], mask=np.ones_like(rx), order=1, mode='nearest', unitary=False)
+        gy = lentil.rescale(ry, _eff_scale(c), mask=np.ones_like(ry), order=1, mode='nearest', unitary=False)
+        gx = lentil.rescale(rx, _eff_scale(c), mask=np.ones_like(rx), order=1, mode='nearest', unitary=False)
         res['grid_y'] = [float(v) for v in gy[:, 0]]; res['grid_x'] = [float(v) for v in gx[0, :]]
         if c['scale'] == 1.0:
             res['id_amp'] = float(np.max(np.abs(A - np.asarray(P.amplitude)))); res['id_opd'] = float(np.max(np.abs(O - np.asarray(P.opd))) / 5e-8)
@@ -212,6 +232,11 @@ def impl(c):
     res['untouched'] = _state(P) == before
     return res
 
+def _eff_scale(c):
+    """the scale factor the code works with: `scale` itself, or `pixelscale[0] / new` as a float64 quotient for resample"""
+    if c['kind'] in ('resample', 'refuse'): return c['px'] / c['new_px']
+    return c['scale']
+
 def _fr(x): return Fr(x)
 def _rat(x): f = Fr(x); return [f.numerator, f.denominator]
 def requests(c, io):
@@ -219,8 +244,9 @@ def requests(c, io):
     pj = None if px2 is None else [_rat(px2[0]), _rat(px2[1])]
     if c['kind'] == 'refuse':
         return [{'op': 'rs.resample_guard', 'px2': pj, 'new': _rat(c['new_px'])}]
-    r = [{'op': 'rs.coords', 'shape': c['shape'], 'scale': _rat(c['scale'])},
-         {'op': 'rs.plane', 'scale': _rat(c['scale']), 'px2': pj, 'amp_ndim': 0 if c['amp_scalar'] else 2, 'opd_ndim': 0 if c['opd_scalar'] else 2}]
+    sc = _eff_scale(c)
+    r = [{'op': 'rs.coords', 'shape': c['shape'], 'scale': _rat(sc), 'prod': [_rat(c['shape'][0] * sc), _rat(c['shape'][1] * sc)]},
+         {'op': 'rs.plane', 'scale': _rat(sc), 'px2': pj, 'amp_ndim': 0 if c['amp_scalar'] else 2, 'opd_ndim': 0 if c['opd_scalar'] else 2}]
     if c['kind'] == 'resample':
         r.append({'op': 'rs.resample_guard', 'px2': pj, 'new': _rat(c['new_px'])})
     return r
@@ -243,6 +269,10 @@ def compare(c, io, mo):
         for k in range(2):
             got = Fr(*io['px'][k]); want = Fr(*pl['px'][k])
             if abs(got - want) > Fr(1, 10**14) * abs(want): return f"pixelscale[{k}]: implementation {float(got)!r}, model {float(want)!r}"
+    if not c['amp_scalar']:
+        want_f = float(Fr(*pl['amp_factor']))
+        if io['amp_factor'] is None or max(abs(io['amp_factor'][0] - want_f), abs(io['amp_factor'][1] - want_f)) > 1e-12 * want_f:
+            return f"amplitude factor on top of the interpolation: implementation {io['amp_factor']}, model {want_f!r}"
     # the interpolation grid itself (centre convention and spacing), wherever the coordinate lies inside the input array
     n0, n1 = c['shape']
     for name, got, want, n in (('row', io['grid_y'], m['y'], n0), ('column', io['grid_x'], m['x'], n1)):
@@ -262,8 +292,10 @@ def oracle(c, io):
         if io.get('exc') != want: return f"resample of a plane with {c['pxmode']} pixel scale: {io.get('exc', 'accepted')}, expected {want}"
         return None if io['untouched'] else 'refused resample modified the plane'
     if 'exc' in io: return f"{c['kind']} raised {io['exc']}: {io['msg']}"
-    s = _fr(c['scale']); n0, n1 = c['shape']
-    want_shape = [math.ceil(n0 * s), math.ceil(n1 * s)]
+    sf = _eff_scale(c); s = _fr(sf); n0, n1 = c['shape']
+    # the documented formula evaluated as documented, in float64: ceil(fl(n*s)); where fl(n*s) is an integer although n*s is not
+    # (or vice versa) this differs by one sample from the exact ceiling — float semantics of the formula, see ASSUMPTIONS
+    want_shape = [math.ceil(n0 * sf), math.ceil(n1 * sf)]
     if io['shape'] != want_shape: return f"shape {io['shape']}, expected ceil(n*s) = {want_shape}"
     px2 = _px2(c)
     if px2 is None:
@@ -271,10 +303,10 @@ def oracle(c, io):
     else:
         px = [v[0] / v[1] for v in io['px']]
         for k in range(2):
-            want_px = px2[k] / c['scale']
-            if abs(px[k] - want_px) > 1e-14 * want_px: return f"pixel scale {px}, expected {[p / c['scale'] for p in px2]}"
+            want_px = px2[k] / sf
+            if abs(px[k] - want_px) > 1e-14 * want_px: return f"pixel scale {px}, expected {[p / sf for p in px2]}"
             ext_new, ext_old = px[k] * io['shape'][k], px2[k] * c['shape'][k]
-            if not (-1e-12 * ext_old <= ext_new - ext_old < px[k] * (1 + 1e-12)): return f'extent changed by more than one sample: {ext_old} -> {ext_new}'
+            if not (-1e-12 * ext_old <= ext_new - ext_old <= px[k] * (1 + 1e-12)): return f'extent changed by more than one sample: {ext_old} -> {ext_new}'
     if not set(io['mask_values']) <= {0, 1}: return f"mask not binary: {io['mask_values'][:5]}"
     if not io['mask_dtype'].startswith('int'): return f"mask dtype {io['mask_dtype']}"
     if io['nseg'] != c['segments']: return f"{io['nseg']} segments, had {c['segments']}"
@@ -291,7 +323,7 @@ def oracle(c, io):
     if c['scale'] == 1.0 and not c['amp_scalar']:
         if io['id_amp'] > 1e-12 or io['id_opd'] > 1e-9 or not io['id_mask']: return f"scale 1 is not the identity (amp {io['id_amp']:.2g}, opd {io['id_opd']:.2g}, mask {io['id_mask']})"
     if c['twice']:
-        back = [math.ceil(math.ceil(n * s) / s) for n in (n0, n1)]
+        back = [math.ceil(math.ceil(n * sf) * (1 / sf)) for n in (n0, n1)]
         if io['twice_shape'] != back: return f"rescale of a rescaled plane: shape {io['twice_shape']}, expected {back}"
         if px2 is not None and any(abs(p - q) > 1e-14 * q for p, q in zip(io['twice_px'], px2)): return f"rescale by s then 1/s: pixel scale {io['twice_px']}"
     # ---- measured clauses (unproven): interpolation accuracy on smooth apertures
